@@ -60,33 +60,40 @@ def rule_select(ctx, repo):
     body = [s for s in fi.node.body if not (isinstance(s, (ast.Global,)) or (isinstance(s, ast.Expr) and isinstance(s.value, ast.Constant)))]
     first = norm(body[0]) if body else None
     r.check(first == 'bitcoin.core._SelectCoreParams(%s)' % nm, 'core-first', fi.site, 'core parameters validated/selected first (raises on an unknown name)', 'SelectParams starts with `%s`' % first)
-    from ..table import if_chain
-    chain = None
-    for s in body:
-        if isinstance(s, ast.If):
-            chain = if_chain(s)
-    if chain is None:
-        r.undecided('chain', fi.site, 'no if/elif chain')
-        return
+    from ..table import if_chain, Tracer
+    # decided per chain name: the name is traced through the function (all guards fold), and the path must end in one
+    # assignment that binds both globals to one fresh object of the chain's class - whatever the spelling of the chain
     seen = {}
-    for test, blk in chain:
-        if test is None:
-            ok = flow.always_raises(blk) and isinstance(blk[0], ast.Raise) and norm(blk[0].exc.func) == 'ValueError'
-            r.check(ok, 'unknown-name', common.site_of(fi, blk[0]), 'unknown chain raises ValueError', 'an unknown chain name does not raise')
-            continue
-        m = re.match(r"^%s == '(\w+)'$" % nm, norm(test))
-        if not m:
-            r.undecided('arm:%s' % norm(test), common.site_of(fi, test), 'unrecognised arm')
-            continue
-        name = m.group(1)
-        seen[name] = blk
+    lits = sorted({n.value for n in ast.walk(fi.node) if isinstance(n, ast.Constant) and isinstance(n.value, str) and n.value.isidentifier()} | set(spec.CHAINS))
+    for name in lits + ['no-such-chain']:
+        tr = Tracer(repo, fi.module, noreturn=())
+        paths = tr.trace(body[1:] if first == 'bitcoin.core._SelectCoreParams(%s)' % nm else body, {nm: name})
         ch = spec.CHAINS.get(name)
-        if ch is None:
-            r.violated('arm:%s' % name, common.site_of(fi, test), 'unknown chain name %r selectable' % name)
+        if len(paths) != 1:
+            r.undecided('arm:%s' % name, fi.site, 'selection of %r does not fold (%d paths)' % (name, len(paths)))
             continue
-        t = [norm(s) for s in blk]
+        p = paths[0]
+        binds = [s_ for s_ in p.stmts() if isinstance(s_, ast.Assign) and any(norm(t) in ('params', 'bitcoin.core.coreparams', 'bitcoin.params') for t in s_.targets)]
+        if ch is None:
+            if name == 'no-such-chain' or p.end == 'raise':
+                ok = p.end == 'raise' and isinstance(p.endnode, ast.Raise) and isinstance(p.endnode.exc, ast.Call) and norm(p.endnode.exc.func) == 'ValueError' and not binds
+                if name == 'no-such-chain':
+                    r.check(ok, 'unknown-name', common.site_of(fi, p.endnode) if p.endnode is not None else fi.site, 'unknown chain raises ValueError before anything is rebound',
+                            'an unknown chain name does not raise ValueError (or rebinds the parameters first)')
+            else:
+                r.violated('arm:%s' % name, fi.site, 'unknown chain name %r selectable' % name)
+            continue
+        seen[name] = p
+        t = [norm(s_) for s_ in binds]
+        ok = False
+        if len(binds) == 1 and p.end != 'raise':
+            b_ = binds[0]
+            tg = sorted(norm(t_) for t_ in b_.targets)
+            v_ = b_.value
+            cv = repo.fold(v_.func, fi.module, env=p.env) if isinstance(v_, ast.Call) and not v_.args and not v_.keywords else None
+            ok = tg == ['bitcoin.core.coreparams', 'params'] and isinstance(cv, ClassRef) and cv.info.name == ch['class']
         want = 'params = bitcoin.core.coreparams = %s()' % ch['class']
-        r.check(t == [want], 'arm:%s' % name, common.site_of(fi, test), want,
+        r.check(ok, 'arm:%s' % name, common.site_of(fi, binds[0]) if binds else fi.site, want,
                 'selecting %r executes %s; both bitcoin.params and bitcoin.core.coreparams must be set to one %s() object' % (name, t, ch['class']))
     r.check(set(seen) == set(spec.CHAINS), 'names', fi.site, sorted(seen), 'selectable names are %s, reference %s' % (sorted(seen), sorted(spec.CHAINS)))
     g = [s for s in fi.node.body if isinstance(s, ast.Global)]
@@ -201,11 +208,21 @@ def rule_templates(ctx, repo):
         var = f.params[1]
         # matcher arms returning cls.from_bytes(var[a:b], ...)
         arms = []
+        from ..escape import path_condition
         for n in ast.walk(f.node):
-            if isinstance(n, ast.If):
-                for s in n.body:
-                    if isinstance(s, ast.Return) and isinstance(s.value, ast.Call) and norm(s.value.func) == 'cls.from_bytes':
-                        arms.append((n.test, s.value))
+            if isinstance(n, ast.Return) and isinstance(n.value, ast.Call) and norm(n.value.func) == 'cls.from_bytes':
+                # everything that holds where the object is built: enclosing tests and earlier guard clauses
+                conj = []
+                for t_, pol in path_condition(n):
+                    if pol:
+                        conj.extend(t_.values if isinstance(t_, ast.BoolOp) and isinstance(t_.op, ast.And) else [t_])
+                    elif isinstance(t_, ast.UnaryOp) and isinstance(t_.op, ast.Not):
+                        x_ = t_.operand
+                        conj.extend(x_.values if isinstance(x_, ast.BoolOp) and isinstance(x_.op, ast.And) else [x_])
+                if conj:
+                    test_ = conj[0] if len(conj) == 1 else ast.BoolOp(op=ast.And(), values=conj)
+                    call_ = common.resolved(f, n.value, repo)
+                    arms.append((test_, call_))
         ok_arm = None
         reasons = []
         for test, call in arms:
@@ -284,10 +301,17 @@ def rule_selection(ctx, repo):
     nw = top.methods['__new__']
     tries = [n for n in walk_no_nested(nw.node) if isinstance(n, ast.Try)]
     order = []
+    text = nw.params[1]
     for t in tries:
         calls = [norm(c.func) for c in ast.walk(t) if isinstance(c, ast.Call)]
         hs = [norm(h.type) for h in t.handlers]
         order.append((calls[0] if calls else None, hs))
+        # the text reaches each codec as given: case rules (BIP173: no mixed case) and characters are the codec's to judge
+        for c in ast.walk(t):
+            if isinstance(c, ast.Call) and norm(c.func) in ('CBech32BitcoinAddress', 'CBase58BitcoinAddress'):
+                args = [norm(a) for a in c.args]
+                r.check(args == [text], 'text-dispatch:argument:%s' % norm(c.func), common.site_of(nw, c), 'the text is handed to the codec unchanged',
+                        '%s is called with `%s`, not with the text itself: what the codec would refuse (mixed-case bech32, for instance) can be normalised away before it looks' % (norm(c.func), ', '.join(args)))
     r.check(order == [('CBech32BitcoinAddress', ['bitcoin.bech32.Bech32Error']), ('CBase58BitcoinAddress', ['bitcoin.base58.Base58Error'])], 'text-dispatch', nw.site,
             'bech32 first, then base58, each absorbing only its own codec error', 'text dispatch is %s' % order)
     last = [s for s in nw.node.body if isinstance(s, ast.Raise)]
